@@ -97,8 +97,12 @@ def bundle(ta, with_cp: bool = False) -> Dict[str, Any]:
         def cp():
             out = {}
             for r in ranks:
+                import contextlib, io
+
                 g, ok = ta.critical_path_analysis(rank=r, annotation="", instance_id=None)
-                out[str(r)] = [bool(ok), _rows(g.summary().to_frame().reset_index()) if ok else None,
+                with contextlib.redirect_stdout(io.StringIO()):
+                    summ = g.summary() if ok else None
+                out[str(r)] = [bool(ok), _rows(summ.to_frame().reset_index()) if ok else None,
                                len(g.critical_path_nodes) if ok else None]
             return out
         attempt("critical_path", cp)
